@@ -43,8 +43,8 @@ file_create(struct file* file, const char* filename, size_t bytesof_filename)
     } else {
         int ret = flock(file->fid, LOCK_EX | LOCK_NB);
         if (ret < 0) {
-            LOGE("Failed to create existing file \"%s\"", filename);
             int tmp = errno;
+            LOGE("Failed to create existing file \"%s\"", filename);
             close(file->fid);
             CHECK_POSIX(tmp);
         }
